@@ -413,6 +413,11 @@ theorem Index.sameFileDefset_keeps  : Keeps R (Index.sameFileDefset) := by
   keeps
 macro_rules | `(tactic| keeps_prim) => `(tactic| (apply Index.sameFileDefset_keeps <;> assumption))
 
+theorem Index.defDefset_keeps  : Keeps R (Index.defDefset) := by
+  unfold Index.defDefset
+  keeps
+macro_rules | `(tactic| keeps_prim) => `(tactic| (apply Index.defDefset_keeps <;> assumption))
+
 theorem Index.checkTemplateArgs_keeps (a0 a1 a2 : _) : Keeps R (Index.checkTemplateArgs a0 a1 a2) := by
   unfold Index.checkTemplateArgs
   keeps
